@@ -450,6 +450,14 @@ func (l *Lexer) readRawString() string {
 				result.WriteByte('`')
 				continue
 			}
+			if nextChar != 0 {
+				// Any other escape is kept as written; consuming the escaped character here
+				// makes sure that a backslash escaped by a backslash does not escape what follows
+				result.WriteByte('\\')
+				l.ReadChar()
+				result.WriteByte(l.CurrentChar)
+				continue
+			}
 		}
 		if l.CurrentChar == '`' {
 			break
